@@ -180,3 +180,47 @@ func VerifC04Concurrent() {
 	}
 	verifrt.Assert(n <= 3, "C04.harness.bounded-number-of-voteproofs")
 }
+
+
+// VerifC04AdvanceDuringCount: the position of the box is advanced by somebody else (a voteproof
+// from outside, SetLastPoint) exactly while the deciding ballot is being counted — at the moment
+// the box asks for the threshold, i.e. after it read its position and before it filters what it
+// counted. A voteproof emitted after that advance must still be new with respect to the position
+// the box has moved to (it is not a stage point the box is voting on any more otherwise).
+func VerifC04AdvanceDuringCount() {
+	w := verifBBNewWorld(4, base.Threshold(60))
+	cast := map[string]bool{}
+	p := verifC04Points[verifrt.NondetChoice("point", len(verifC04Points))]
+	cast[p.key()] = true
+	for node := 0; node < 2; node++ {
+		verifC04Vote(w, verifC04Ballot{node: node, point: verifrt.NondetChoice("xpoint", 1), variant: 0})
+	}
+	_ = w.drain()
+	advTo := []verifBBPoint{{h: 33, r: 0, stage: base.StageACCEPT}, {h: 34, r: 0, stage: base.StageINIT}, {h: 33, r: 1, stage: base.StageINIT}}[verifrt.NondetChoice("advance-to", 3)]
+	at := verifrt.NondetChoice("at-threshold-call", 3) // 0: never
+	calls := 0
+	advanced := false
+	var lp isaac.LastPoint
+	w.onThreshold = func() {
+		calls++
+		if at != 0 && calls == at {
+			l, err := isaac.NewLastPoint(advTo.stagePoint(), true, false)
+			verifrt.Assert(err == nil, "C04.harness.lastpoint")
+			if w.box.SetLastPoint(l) {
+				advanced, lp = true, l
+			}
+		}
+	}
+	// the deciding ballots (the first two votes above were for point 0 = 33/0 INIT)
+	verifC04Vote(w, verifC04Ballot{node: 2, point: 0, variant: 0})
+	w.onThreshold = nil
+	verifrt.Reach("C04.advance.voted")
+	for _, vp := range w.drain() {
+		verifC04CheckVoteproof(w, vp, map[string]bool{verifC04Points[0].key(): true})
+		if advanced {
+			verifrt.Reach("C04.advance.emitted-after-advance")
+			verifrt.Assert(isaac.IsNewVoteproof(lp, vp), "C04.S1.voteproof-is-for-a-stage-point-it-is-voting-on(not-behind-the-position-the-box-already-moved-to)")
+		}
+	}
+	_ = p
+}
